@@ -271,7 +271,7 @@ def c08d(prog, R, rid="C08.d"):
         ind = lets.get("indirection")
         cond_ok = ind is not None and ind.get("k") == "if" and hir_expr_str(ind["c"]) == "item.key.value_type.is_indirection()"
         regs = hir_sites(s["body"], lambda n: n.get("k") == "mcall" and n.get("m") == "register_blob")
-        g_ok = bool(regs) and all(any("Some(indirection) = indirection" in g for g in x.guard_texts()) for x in regs)
+        g_ok = bool(regs) and all(len(x.guard_texts()) == 1 and "Some(indirection) = indirection" in x.guard_texts()[0] for x in regs)
         r.check(cond_ok and g_ok, "StandardCompaction::write|indirection => register_blob", "pass-through of pointers no longer registers the blob link", "")
     else:
         r.anchor_missing("StandardCompaction::write HIR")
